@@ -84,7 +84,7 @@ def check_case(ctx, case, max_runs):
         if getattr(e, "threshold", None) != ref.T and not probs:
             ctx.fail("threshold changed after construction", c2, {"threshold": str(e.threshold)})
         nontriv = (info["surplus"] > 0 and info["elim_rounds"] > 0) or info["ties_followed"] > 0
-        ctx.case({"cfg": cfg, "profile": spec, "script": script}, nontrivial=nontriv)
+        ctx.case({"cfg": cfg, "profile": spec, "script": script}, nontrivial=nontriv, sample=len(spec["ballots"]) < 40)
 
 
 def gen_case(rnd, maxn):
@@ -95,8 +95,23 @@ def gen_case(rnd, maxn):
     return c
 
 
+def realistic_case():
+    """README pipeline: IRV on the cleaned Minneapolis 2013 cast vote record (35 candidates, ~6.9k distinct ballots)"""
+    from votekit.cvr_loaders import load_csv
+    from votekit.cleaning import remove_noncands
+    from .. import realistic as R
+
+    prof = remove_noncands(load_csv(R.mn_path()), R.NONCANDS)
+    return {"cfg": {"rule": "IRV", "quota": "droop", "tiebreak": "random"}, "profile": canon.spec_of_profile(prof), "tag": "minneapolis"}
+
+
 def run(ctx):
     max_runs = 4 if ctx.quick else 30
+    if not ctx.quick and ctx.shard == 0:
+        c = ctx.guard("realistic_case", realistic_case)
+        if c is not None:
+            ctx.guard("realistic", check_case, ctx, c, 1)
+            ctx.count("realistic_irv_minneapolis")
     maxn = 6 if ctx.quick else 8
     if ctx.shard == 0:
         for c in cases.directed_cases():
